@@ -451,7 +451,7 @@ def cxProgram (ops : List (CxOp × Arm)) : Prog CxObj :=
     comes after a receive from the helper's channel -/
 def armJoined : Bool → List CxStep → Bool
   | _, [] => true
-  | joined, .recv :: r => armJoined true r && (joined || true)
+  | _, .recv :: r => armJoined true r
   | joined, .ret _ :: r => joined && armJoined joined r
   | joined, .deadline _ _ :: .exitIfErr :: r => armJoined joined r   -- exit only if SetDeadline itself fails
   | joined, .exitIfErr :: r => joined && armJoined joined r
